@@ -165,31 +165,24 @@ Qed.
 
 Definition spart_result (o : spart_out K) : list gterm * K := (so_terms K o, so_zero K o).
 
-Theorem susc_part_compute_src_total_eq (lenient : bool) (T : tols K) (blk : nat * nat) (inp : part_in K) :
-  (forall a b, susc_compare K NO (t_compare K T) a b = false -> susc_compare K NO (t_compare K T) b a = true) ->
+(** the source's compute returns exactly the model's part: for every comparator, every tolerance, every input
+    (PV.TermList.add_term is the retry loop the source has: LehmannGenProofs.add_terms_ref_is_termlist) *)
+Theorem susc_terms_src_is_model (T : tols K) (ts : list gterm) : susc_terms_src T ts = fst (susc_add_terms K NO T ts).
+Proof. unfold susc_terms_src, susc_add_terms. apply add_terms_ref_is_termlist. Qed.
+
+Theorem susc_part_compute_src_eq (lenient : bool) (T : tols K) (blk : nat * nat) (inp : part_in K) :
   susc_part_compute_src K NO lenient T blk inp = wmap spart_result (susc_part_compute K NO susc_chase_guarded lenient T inp).
 Proof.
-  intros Ht. rewrite susc_part_compute_src_is_model.
+  rewrite susc_part_compute_src_is_model.
   destruct (susc_part_compute K NO susc_chase_guarded lenient T inp) as [o| | |] eqn:E; cbn [wmap]; try reflexivity.
   destruct (susc_part_compute_fields _ _ _ _ _ E) as [E1 E2]. unfold spart_result. rewrite E1, E2. do 2 f_equal.
-  unfold susc_terms_src, susc_add_terms. apply add_terms_ref_is_termlist_total. exact Ht.
+  apply susc_terms_src_is_model.
 Qed.
 
-Definition susc_unambiguous (T : tols K) (ts : list gterm) : bool :=
-  unambiguous K K (susc_compare K NO (t_compare K T)) (susc_negligible K NO (t_negligible K T)) (susc_term_add K NO) ts [].
-
-Theorem susc_part_compute_src_strict (lenient : bool) (T : tols K) (blk : nat * nat) (inp : part_in K) :
-  (forall a, susc_compare K NO (t_compare K T) a a = false) ->
-  (forall a b c, susc_compare K NO (t_compare K T) a b = true -> susc_compare K NO (t_compare K T) b c = true ->
-                 susc_compare K NO (t_compare K T) a c = true) ->
+Theorem susc_part_compute_src_agrees (lenient : bool) (T : tols K) (blk : nat * nat) (inp : part_in K) :
   forall o, susc_part_compute K NO susc_chase_guarded lenient T inp = WDone o ->
-  susc_unambiguous T (s_kept K (so_raw K o)) = true ->
   susc_part_compute_src K NO lenient T blk inp = WDone (spart_result o).
-Proof.
-  intros Hi Htr o E U. rewrite susc_part_compute_src_is_model, E. cbn [wmap].
-  destruct (susc_part_compute_fields _ _ _ _ _ E) as [E1 E2]. unfold spart_result. rewrite E1, E2. do 2 f_equal.
-  unfold susc_terms_src, susc_add_terms. apply add_terms_ref_is_termlist; [exact Hi|exact Htr|exact I|exact U].
-Qed.
+Proof. intros o E. rewrite susc_part_compute_src_eq, E. reflexivity. Qed.
 
 (** * evaluation *)
 Lemma susc_terms_call_z (terms : list gterm) (z : K) :
@@ -262,14 +255,13 @@ Proof.
   apply fold_left_ext_all'. intros acc i. rewrite E4. reflexivity.
 Qed.
 
-(** the whole object, exact form *)
-Theorem susc_compute_src_total (lenient : bool) (T : tols K) (g : gf_in K) :
-  (forall a b, susc_compare K NO (t_compare K T) a b = false -> susc_compare K NO (t_compare K T) b a = true) ->
+(** the whole object *)
+Theorem susc_compute_src_eq (lenient : bool) (T : tols K) (g : gf_in K) :
   susc_compute_src K NO lenient T g = wmap results_of_parts (susc_compute K NO susc_chase_guarded lenient T g).
 Proof.
-  intros Ht. unfold susc_compute_src, susc_compute. destruct (gf_prepare K g) as [ps|]; [|reflexivity].
+  unfold susc_compute_src, susc_compute. destruct (gf_prepare K g) as [ps|]; [|reflexivity].
   induction ps as [|[lr inp] ps IH]; [reflexivity|].
-  cbn [susc_compute_parts_src scompute_parts]. rewrite (susc_part_compute_src_total_eq lenient T lr inp Ht).
+  cbn [susc_compute_parts_src scompute_parts]. rewrite (susc_part_compute_src_eq lenient T lr inp).
   destruct (susc_part_compute K NO susc_chase_guarded lenient T inp) as [o| | |]; cbn [wmap wbind]; try reflexivity.
   rewrite IH. destruct (scompute_parts K NO susc_chase_guarded lenient T ps); reflexivity.
 Qed.
@@ -308,7 +300,7 @@ Theorem susc_part_exact_src (T : tols K) :
   susc_part_value_src K NO res beta z = susc_part_spec K NO kinv T inp beta z.
 Proof.
   intros Hr Ht lenient blk inp W res beta z E.
-  rewrite (susc_part_compute_src_total_eq K NO lenient T blk inp Ht) in E.
+  rewrite (susc_part_compute_src_eq K NO lenient T blk inp) in E.
   destruct (susc_part_compute K NO susc_chase_guarded lenient T inp) as [o| | |] eqn:Em; cbn [wmap] in E; try discriminate E.
   injection E as <-. rewrite susc_part_value_src_is_model.
   exact (SuscPartProofs.susc_part_exact K NO kinv (F_R Kf) (Fdiv_def Kf) T Hr Ht susc_chase_guarded lenient inp W o beta z Em).
@@ -394,17 +386,23 @@ Definition exZs_inp : part_in Z :=
   mkpart Z (mkcs 4%nat [0; 4]%nat [0; 1; 2; 3]%nat [1; 1; 1; 1]%Z) (mkcs 4%nat [0; 4]%nat [0; 1; 2; 3]%nat [1; 1; 1; 1]%Z)
          [0%Z] [1; 20; 23; 50]%Z [9%Z] [2; 3; 4; 5]%Z.
 Example ex_susc_src_tolerance :
-  (forall a, susc_compare Z ZopsS (t_compare Z TZs) a a = false) /\
-  (forall a b c, susc_compare Z ZopsS (t_compare Z TZs) a b = true -> susc_compare Z ZopsS (t_compare Z TZs) b c = true ->
-                 susc_compare Z ZopsS (t_compare Z TZs) a c = true) /\
   exists o, susc_part_compute Z ZopsS susc_chase_guarded false TZs exZs_inp = WDone o /\
-            susc_unambiguous Z ZopsS TZs (s_kept Z (so_raw Z o)) = true /\
             spart_result Z o = ([(20, 11); (50, 4)]%Z, 9%Z) /\
             susc_part_compute_src Z ZopsS false TZs (0, 0)%nat exZs_inp = WDone (spart_result Z o).
 Proof.
-  split; [intros a; unfold susc_compare; cbn; rewrite Z.sub_diag; reflexivity|].
-  split; [intros a b c; unfold susc_compare; cbn; rewrite !negb_true_iff, !Z.ltb_ge; lia|].
-  eexists. split; [vm_compute; reflexivity|]. split; [vm_compute; reflexivity|]. split; [reflexivity|].
+  eexists. split; [vm_compute; reflexivity|]. split; [reflexivity|].
+  vm_compute. reflexivity.
+Qed.
+(** the fourth pole, 28, is like BOTH stored poles 20 and 35: the source and the model merge it into the upper one *)
+Definition exZs2_inp : part_in Z :=
+  mkpart Z (mkcs 4%nat [0; 4]%nat [0; 1; 2; 3]%nat [1; 1; 1; 1]%Z) (mkcs 4%nat [0; 4]%nat [0; 1; 2; 3]%nat [1; 1; 1; 1]%Z)
+         [0%Z] [1; 20; 35; 28]%Z [9%Z] [2; 3; 4; 5]%Z.
+Example ex_susc_src_two_likes :
+  exists o, susc_part_compute Z ZopsS susc_chase_guarded false TZs exZs2_inp = WDone o /\
+            spart_result Z o = ([(20, 6); (35, 9)]%Z, 9%Z) /\
+            susc_part_compute_src Z ZopsS false TZs (0, 0)%nat exZs2_inp = WDone (spart_result Z o).
+Proof.
+  eexists. split; [vm_compute; reflexivity|]. split; [reflexivity|].
   vm_compute. reflexivity.
 Qed.
 
@@ -432,7 +430,7 @@ Proof.
   destruct (susc_part_compute_fixed R Rops false T0 ex_inp ex_part_wf) as [o Eo].
   exists (spart_result R o).
   assert (E : susc_part_compute_src R Rops false T0 (0, 1)%nat ex_inp = WDone (spart_result R o)).
-  { rewrite (susc_part_compute_src_total_eq R Rops false T0 (0, 1)%nat ex_inp T0_scmp). change susc_chase_guarded with true. rewrite Eo. reflexivity. }
+  { rewrite (susc_part_compute_src_eq R Rops false T0 (0, 1)%nat ex_inp). change susc_chase_guarded with true. rewrite Eo. reflexivity. }
   split; [exact E|].
   exact (susc_part_exact_src R Rops Rinv Rfield T0 T0_srel T0_scmp false (0, 1)%nat ex_inp ex_part_wf (spart_result R o) beta z E).
 Qed.
